@@ -34,7 +34,7 @@ function snapshot(c) {
     if (op === 'bar') return { op: 'bar', b: '', h: cm(v) };
     return { op: op, b: String(v), h: 0 };
   });
-  return { state: c.state, heights: c.heights.map(cm), order: c.jumpers.map((x) => String(x.bib)),
+  return { state: c.state, heights: c.heights.map(cm), bar: cm(c.barHeight), order: c.jumpers.map((x) => String(x.bib)),
     ranked: c.rankedJumpers.map((x) => String(x.bib)), j: j, log: log };
 }
 function apply(c, call) {
